@@ -189,6 +189,38 @@ def check(desc, rec, downstream=True, fortran=False, hang_s=20.0):
                     pass
                 executed = set(interp.exec_controller.executed_ids)
                 rec.count("downstream_interp_runs")
+            # ... and TWO interpreters on the same description, alive at the same time, their steps interleaved
+            # event by event (a step is a generator: it is suspended at every yield)
+            solo = NumpyInterpreter(dag, {})
+            solo.set_up(0.0, 0.5, {})
+            try:
+                list(islice(solo.run_single_step(), 200))
+            except (FailStepException, TransitionEvent):
+                pass
+            want_ids = set(solo.exec_controller.executed_ids)
+            pair = [NumpyInterpreter(dag, {}), NumpyInterpreter(dag, {})]
+            gens = []
+            for it in pair:
+                it.set_up(0.0, 0.5, {})
+                gens.append(it.run_single_step())
+            live = [True, True]
+            for _ in range(400):
+                if not any(live):
+                    break
+                for k in (0, 1):
+                    if live[k]:
+                        try:
+                            next(gens[k])
+                        except (StopIteration, FailStepException, TransitionEvent):
+                            live[k] = False
+            rec.count("downstream_interleaved_interpreter_pairs")
+            for k in (0, 1):
+                got_ids = set(pair[k].exec_controller.executed_ids)
+                if not live[k] and got_ids != want_ids:
+                    rec.violation("downstream-interleaved-interpreters-interfere",
+                                  f"interpreter {k} of an interleaved pair executed {sorted(got_ids)}, alone it "
+                                  f"executes {sorted(want_ids)}", desc)
+                    return
             if len(dag.phases) > 1:
                 # ... and ONE interpreter that visits every phase in turn, there and back (what a run does)
                 interp = NumpyInterpreter(dag, {})
